@@ -192,7 +192,11 @@ def random_history(rng: random.Random, steps: int, wild_ok: bool):
         elif op == "rmidx" and n:
             net.remove_reaction(rng.randrange(n))
         elif op == "rmidxs" and n:
-            net.remove_reaction(sorted(rng.sample(range(n), rng.randint(1, min(3, n)))))
+            idxs = sorted(rng.sample(range(n), rng.randint(1, min(3, n))))
+            if rng.random() < 0.4:       # an index list may name a position twice (where_species(a) + where_species(b)), in any order
+                idxs = idxs + [rng.choice(idxs)]
+                rng.shuffle(idxs)
+            net.remove_reaction(idxs)
         elif op == "rminst":
             net.remove_reaction(mk(rng.choice(seen)))
         elif op == "rminsts":
@@ -218,6 +222,10 @@ def random_history(rng: random.Random, steps: int, wild_ok: bool):
 def dup_lists(rng: random.Random, n_lists: int, wild_ok: bool):
     """targeted C15 cases: lists with permuted / respelled / windowed / retyped repeats, triples and longer runs"""
     from naunet.network import Network
+    # an index list that names a position twice, front / middle / back
+    for idxs in ([1, 1], [0, 2, 2, 0], [3, 1, 3], [4, 4, 0]):
+        net = Network([mk(d) for d in UNIVERSE[:5]])
+        net.remove_reaction(list(idxs))
     if wild_ok:
         # the recorded witness of the non-transitive equality: [TWOBODY, UNKNOWN, COSMICRAY] of the same species
         for perm in itertools.permutations([UNIVERSE[0], UNIVERSE[7], UNIVERSE[8]]):
